@@ -134,6 +134,11 @@ def opEnc (a : Acc) (ln : Nat) (l : Line) : Acc := Id.run do
         match checkBlockTokens comp b with
         | none => pure ()
         | some msg => a := a.diff ln l "encbits" s!"block at bit {b.bitStart} (type {b.btype}): {msg}"
+        if b.btype == 2 then
+          a := a.bump "enc_dyn_headers_checked"
+          match checkDynHeader comp b with
+          | none => pure ()
+          | some msg => a := a.diff ln l "dynhdr" s!"dynamic block at bit {b.bitStart}: {msg}"
   if d.verdict == "accept" then
    let cfg := s!"level={l.get "level"} strategy={l.get "strategy"} fmt={l.get "fmt"} wb={l.get "wb"}"
    if checks.contains "mode" then
